@@ -261,28 +261,38 @@ Ltac conf_nth :=
     apply find_confirm_nth in Hf as (k & -> & Hk); cbn [Nat.add] in *
   end.
 
-Lemma cstep_facts cfg s c s' : Inv cfg s -> cstep cfg s c = Some s' ->
+(* The container keeps its side of the contract: a batch that executeTasks does not hand to
+   Execute holds no task.  (For which containers this is so: ProofsC.faithful_iff_honest; that
+   nothing weaker will do: ProofsC.unfaithful_loses_tasks.) *)
+Definition faithful (cfg : config) : Prop := forall h, runs cfg h = false -> h = [].
+
+Ltac unfaith Hf :=
+  repeat match goal with
+  | Hr : runs _ ?h = false |- _ => apply Hf in Hr; subst h
+  end.
+
+Lemma cstep_facts cfg s c s' : faithful cfg -> Inv cfg s -> cstep cfg s c = Some s' ->
   Inv cfg s' /\ forall mu, additive mu -> Mono mu (EvC c) s s'.
 Proof.
-  intros HI H. unfold cstep in H.
+  intros Hf HI H. unfold cstep in H.
   destruct (nth_error (cl s) c) as [pc|] eqn:Hn; [|discriminate].
   pose proof (sumz_ge_nth c_adding _ _ _ c_adding_nonneg Hn) as Hadding.
   destruct pc as [|t w|h| |f wt| | | |]; try discriminate.
   all: try (destruct f as [| |h|ok|ok]); try destruct wt; cbn [fstep] in H; unfold callback in H;
-    brk2 H; inversion H; subst s'; clear H; conf_nth.
+    brk2 H; inversion H; subst s'; clear H; conf_nth; unfaith Hf.
   all: solve_case HI.
 Qed.
 
-Lemma bstep_facts cfg s b alt s' : Inv cfg s -> bstep cfg s b alt = Some s' ->
+Lemma bstep_facts cfg s b alt s' : faithful cfg -> Inv cfg s -> bstep cfg s b alt = Some s' ->
   Inv cfg s' /\ forall mu, additive mu -> Mono mu (EvB b alt) s s'.
 Proof.
-  intros HI H. unfold bstep in H.
+  intros Hf HI H. unfold bstep in H.
   destruct (nth_error (fl s) b) as [pc|] eqn:Hn; [|discriminate].
   pose proof (sumz_ge_nth b_live _ _ _ b_live_nonneg Hn) as Hlive.
   pose proof (sumz_nonneg b_exitpre (fl s) b_exitpre_nonneg) as Hexn.
   destruct pc as [|cm last|h last|h|h|h| |f last|last| |f|]; try discriminate.
   all: try (destruct f as [| |h|ok|ok]); cbn [fstep] in H; unfold callback in H;
-    brk2 H; inversion H; subst s'; clear H.
+    brk2 H; inversion H; subst s'; clear H; unfaith Hf.
   all: destruct (guarded s) eqn:?.
   all: solve_case HI.
 Qed.
